@@ -384,6 +384,48 @@ DoZRangeByScore(c, st) ==
 DoPing(c, st) == Res(IF c.has THEN RBulk(c.v) ELSE RSimple(<<80, 79, 78, 71>>), st)
 DoEcho(c, st) == Res(RBulk(c.v), st)
 
+---------------------------------------------------------------------------
+(* bit operations on strings: bit 0 is the most significant bit of the first byte [doc] *)
+BitMask(o) == <<128, 64, 32, 16, 8, 4, 2, 1>>[(o % 8) + 1]
+BitOf(v, o) == LET i == (o \div 8) + 1 IN IF i > Len(v) THEN 0 ELSE (v[i] \div BitMask(o)) % 2
+(* SETBIT key offset bit: the string grows with zero bytes up to the byte holding the bit; the reply is the *)
+(* previous bit; like every in-place modification it keeps the TTL [doc]                                    *)
+DoSetBit(c, st) ==
+  IF Has(st, c.k) /\ st[c.k].t # "string" THEN Res(WRONGTYPE, st)
+  ELSE LET old == IF Has(st, c.k) THEN st[c.k].v ELSE <<>>
+           i == (c.off \div 8) + 1
+           v0 == IF Len(old) < i THEN old \o [j \in 1..(i - Len(old)) |-> 0] ELSE old
+           ob == BitOf(v0, c.off)
+       IN Res(RInt(ob), Put(st, c.k, Entry("string", [v0 EXCEPT ![i] = v0[i] + (c.bit - ob) * BitMask(c.off)], ExpOf(st, c.k))))
+DoGetBit(c, st) ==
+  IF Has(st, c.k) /\ st[c.k].t # "string" THEN Res(WRONGTYPE, st)
+  ELSE Res(RInt(IF Has(st, c.k) THEN BitOf(st[c.k].v, c.off) ELSE 0), st)
+
+(* GETEX key [PERSIST | EX s | PX ms]: GET that also sets or clears the deadline of an existing string;     *)
+(* c.mode in none/persist/rel, c.ms the relative deadline in ms.  A missing key answers nil before the      *)
+(* expiry argument is looked at [src: getexCommand looks the key up first]                                  *)
+DoGetEx(c, st, now) ==
+  IF ~Has(st, c.k) THEN Res(RNil, st)
+  ELSE IF st[c.k].t # "string" THEN Res(WRONGTYPE, st)
+  ELSE IF c.mode = "rel" /\ c.ms <= 0 THEN Res(ERR, st)
+  ELSE LET exp == IF c.mode = "persist" THEN -1 ELSE IF c.mode = "rel" THEN now + c.ms ELSE st[c.k].exp
+       IN Res(RBulk(st[c.k].v), Put(st, c.k, [st[c.k] EXCEPT !.exp = exp]))
+
+(* SPOP key [count]: removes and returns random members - every choice of members is an outcome; c.n = -1  *)
+(* without count.  A set that becomes empty stops existing; the others keep their TTL [doc]                 *)
+SpopAlts(c, st) ==
+  IF Has(st, c.k) /\ st[c.k].t # "set" THEN {Res(WRONGTYPE, st)}
+  ELSE LET S == IF Has(st, c.k) THEN st[c.k].v ELSE {} IN
+       IF c.n = -1 THEN (IF S = {} THEN {Res(RNil, st)}
+                         ELSE {Res(RBulk(x), PutColl(st, c.k, "set", S \ {x}, ExpOf(st, c.k))) : x \in S})
+       ELSE LET m == Min(c.n, Cardinality(S)) IN
+            {Res(RUnordered({RBulk(x) : x \in T}), IF T = {} THEN st ELSE PutColl(st, c.k, "set", S \ T, ExpOf(st, c.k))) :
+               T \in {U \in SUBSET S : Cardinality(U) = m}}
+DoSpop(c, st) == CHOOSE r \in SpopAlts(c, st) : TRUE
+(* RANDOMKEY: some visible key, nil exactly when there is none [doc] *)
+RandomKeyAlts(c, st) == IF DOMAIN st = {} THEN {Res(RNil, st)} ELSE {Res(RBulk(KeyBytes(c, k)), st) : k \in DOMAIN st}
+DoRandomKey(c, st) == CHOOSE r \in RandomKeyAlts(c, st) : TRUE
+
 (* the command table *)
 DoLive(c, st, now) ==
   CASE c.op = "GET" -> DoGet(c, st)            [] c.op = "SET" -> DoSet(c, st, now)
@@ -416,6 +458,9 @@ DoLive(c, st, now) ==
     [] c.op = "ZRANK" -> DoZRank(c, st)        [] c.op = "ZRANGE" -> DoZRange(c, st)
     [] c.op = "ZCOUNT" -> DoZCount(c, st)      [] c.op = "ZRANGEBYSCORE" -> DoZRangeByScore(c, st)
     [] c.op = "PING" -> DoPing(c, st)          [] c.op = "ECHO" -> DoEcho(c, st)
+    [] c.op = "SETBIT" -> DoSetBit(c, st)      [] c.op = "GETBIT" -> DoGetBit(c, st)
+    [] c.op = "GETEX" -> DoGetEx(c, st, now)   [] c.op = "SPOP" -> DoSpop(c, st)
+    [] c.op = "RANDOMKEY" -> DoRandomKey(c, st)
 
 (* expired keys are invisible before the command runs *)
 Do(c, st, now) == DoLive(c, Live(st, now), now)
@@ -426,6 +471,8 @@ Do(c, st, now) == DoLive(c, Live(st, now), now)
 DoAlts(c, st, now) ==
   LET live == Live(st, now) IN
   {Do(c, st, now)} \cup
+  (*  - commands whose result is a random choice: every choice                                *)
+  (IF c.op = "SPOP" THEN SpopAlts(c, live) ELSE IF c.op = "RANDOMKEY" THEN RandomKeyAlts(c, live) ELSE {}) \cup
   (IF c.op = "EXPIRE" /\ (c.nx \/ c.xx \/ c.gt \/ c.lt) /\ c.ms <= 0 /\ Has(live, c.k)
    THEN {Res(RInt(1), Drop(live, {c.k}))} ELSE {})
   \cup
@@ -447,7 +494,25 @@ DevAlts(c, st, now) ==
 
 ReadOnlyOps == {"KEYS", "EXPIRETIME", "GET", "STRLEN", "MGET", "GETRANGE", "EXISTS", "TYPE", "PTTL", "TTL", "DBSIZE", "LLEN", "LINDEX", "LRANGE",
                 "SISMEMBER", "SCARD", "SMEMBERS", "HGET", "HEXISTS", "HLEN", "HGETALL", "HKEYS", "HVALS",
-                "ZSCORE", "ZCARD", "ZRANK", "ZRANGE", "ZCOUNT", "ZRANGEBYSCORE", "PING", "ECHO"}
+                "ZSCORE", "ZCARD", "ZRANK", "ZRANGE", "ZCOUNT", "ZRANGEBYSCORE", "PING", "ECHO", "GETBIT", "RANDOMKEY"}
+
+---------------------------------------------------------------------------
+(* The script cache (one per server, whatever the number of shards): a set of script ids.  SCRIPT LOAD and   *)
+(* EVAL add the script, SCRIPT FLUSH empties the cache, SCRIPT EXISTS reports membership, EVALSHA of a script *)
+(* that is not cached answers NOSCRIPT and runs nothing; a cached script runs exactly as EVAL runs it [doc].  *)
+(* The scripts of the drivers issue one command c.body through redis.call (or none: body.op = "NONE", the     *)
+(* script returns 1).  DoScript = [r, s, kn]; r.t = "sha" stands for a 40-digit hexadecimal digest.           *)
+NOSCRIPT == RErr(<<78, 79, 83, 67, 82, 73, 80, 84>>)
+ScriptOps == {"SCRIPT_LOAD", "SCRIPT_FLUSH", "SCRIPT_EXISTS", "EVAL", "EVALSHA"}
+RunBody(c, st, now) == IF c.body.op = "NONE" THEN Res(RInt(1), Live(st, now)) ELSE Do(c.body, st, now)
+DoScript(c, st, kn, now) ==
+  LET live == Live(st, now) IN
+  CASE c.op = "SCRIPT_LOAD" -> [r |-> [t |-> "sha", b |-> <<>>, a |-> <<>>], s |-> live, kn |-> kn \cup {c.sid}]
+    [] c.op = "SCRIPT_FLUSH" -> [r |-> OK, s |-> live, kn |-> {}]
+    [] c.op = "SCRIPT_EXISTS" -> [r |-> RArr([i \in DOMAIN c.sids |-> RInt(IF c.sids[i] \in kn THEN 1 ELSE 0)]), s |-> live, kn |-> kn]
+    [] c.op = "EVAL" -> LET x == RunBody(c, st, now) IN [r |-> x.r, s |-> x.s, kn |-> kn \cup {c.sid}]
+    [] c.op = "EVALSHA" -> IF c.sid \in kn THEN LET x == RunBody(c, st, now) IN [r |-> x.r, s |-> x.s, kn |-> kn]
+                           ELSE [r |-> NOSCRIPT, s |-> live, kn |-> kn]
 
 (* state equality that never compares payloads of different types *)
 EntryEq(a, b) == a.t = b.t /\ a.exp = b.exp /\ a.v = b.v
